@@ -431,6 +431,10 @@ def gen_settings(rng, kind):
         s['statistics'] = 1
     if rng.random() < 0.5:
         s['tag_index'] = 1
+    if s.get('cull_limit') == 0 and rng.random() < 0.6:
+        # with cull_limit 0 no call evicts, so a directory may legitimately stay ABOVE its size limit (an empty database file is
+        # already larger than these): everything written must still be there for every handle opened later
+        s['size_limit'] = rng.choice([1, 4096, 40000])
     s['disk_min_file_size'] = rng.choice([0, 8, 100, 2 ** 15])
     if rng.random() < 0.6:
         s['disk_pickle_protocol'] = rng.choice([0, 2, pickle.HIGHEST_PROTOCOL])
